@@ -96,6 +96,8 @@ def _block_scales(rs, nb, mode):
         return np.array([float(x) for x in mode][:nb] + [1.0] * max(0, nb - len(mode)))
     if mode == "wide":
         return 10.0 ** rs.uniform(-6, 6, size=nb)
+    if mode == "mid":
+        return 10.0 ** rs.uniform(-3, 3, size=nb)
     if mode == "d7":                      # the D7 pattern: one block at 1, the others at 1e-4
         s = np.full(nb, 1e-4)
         s[rs.randint(nb)] = 1.0
@@ -145,6 +147,8 @@ def _ds_opt(c, graft, beta1=None):
     mode = c.get("mode", "replicated")
     if mode == "pmapq":
         kw.update(batch_axis_name="batch", best_effort_memory_usage_reduction=True)
+    elif mode == "pmap":
+        kw.update(batch_axis_name="batch")
     elif mode == "sharded":
         from jax.sharding import PartitionSpec as P
         spec = P("x", None, None)
@@ -218,6 +222,52 @@ def _ds_leaf_state(st, dev0=None, glob=None):
     return d
 
 
+def _own_root(ls, p, c):
+    """every accepted stored root must be the inverse p-th root of ITS OWN statistic: max|X^p (S + ridge I) - I| small.
+    Returns the offending slots.  Inconclusive slots (float32 and kS so large that rounding alone reaches 0.25) are skipped."""
+    import numpy as np
+    bad = []
+    thr = c.get("thr", 0.1)
+    meps = c.get("meps", 1e-6)
+    floor = 1e-25 if c.get("root") == "newton" else 1e-6
+    u = 2.0 ** -53 if c.get("x64") else 2.0 ** -24
+    for k, (s_, x) in enumerate(zip(ls["stats"], ls["pre"])):
+        e = float(ls["err"][k])
+        s_ = np.asarray(s_, np.float64)
+        x = np.asarray(x, np.float64)
+        if not (e < thr) or x.shape != s_.shape or not np.all(np.isfinite(x)):
+            continue
+        n = len(s_)
+        w = np.linalg.eigvalsh((s_ + s_.T) / 2)
+        lmax = max(float(w[-1]), 0.0)
+        r = int(ls["retries"][k]) - 1 if (n > 1 and ls["retries"][k] > 0) else 0
+        ridge = meps * max(lmax, floor) * 10.0 ** r
+        ks = (lmax + ridge) / (max(float(w[0]), 0.0) + ridge) if lmax > 0 else 1.0
+        bound = max(20 * e, 512 * u * ks, 1e-3)
+        if bound > 0.25:
+            continue
+        res = float(np.max(np.abs(np.linalg.matrix_power(x, p) @ (s_ + ridge * np.eye(n)) - np.eye(n))))
+        if not res <= bound:
+            bad.append({"k": k, "residual": res, "bound": bound, "size": n})
+    return bad
+
+
+def _collect_runs(rec, run_out, tag):
+    """device agreement and own-root oracle over every leaf and step of one pmap run"""
+    nconcl = 0
+    for t, step in enumerate(run_out):
+        for n, (_u, ls) in step.items():
+            if ls.get("devdiff", 0.0) > TOL:
+                rec["fails"].append({"what": "DS pmap: the devices hold different updates / states for the same leaf", "run": tag, "leaf": n,
+                                     "t": t, "rel": ls["devdiff"]})
+            for b in ls.get("ownroot_bad", [])[:2]:
+                rec["fails"].append({"what": "DS pmap: a stored preconditioner is not the inverse root of its own statistic (slot mix-up)",
+                                     "run": tag, "leaf": n, "t": t, **b})
+            if "ownroot_bad" in ls:
+                nconcl += len(ls["stats"])
+    rec["ownroot_checked"] = rec.get("ownroot_checked", 0) + nconcl
+
+
 def ds_run(c, graft, shapes, hist, beta1=None):
     """hist: list over steps of {name: array}. Returns per step {name: (update, leaf_state)}.  Modes: replicated (jit),
     pmapq (int16-quantized statistics and preconditioners, pmap over c['ndev'] forced host devices), sharded (jit under a
@@ -231,7 +281,7 @@ def ds_run(c, graft, shapes, hist, beta1=None):
     params = {n: jnp.zeros(shapes[n], jnp.float32) for n in names}
     mode = c.get("mode", "replicated")
     out = []
-    if mode == "pmapq":
+    if mode in ("pmapq", "pmap"):
         devs = jax.devices()[:c.get("ndev", 1)]
         if len(devs) < c.get("ndev", 1):
             raise RuntimeError(f"only {len(devs)} host devices")
@@ -243,7 +293,24 @@ def ds_run(c, graft, shapes, hist, beta1=None):
         dev0 = lambda x: np.asarray(x)[0]   # noqa: E731
         for g in hist:
             u, state = upd(rep({n: jnp.asarray(g[n], jnp.float32) for n in names}), state, rparams)
-            out.append({n: (dev0(u[n]), _ds_leaf_state(jax.tree.map(lambda x: np.asarray(x)[0], state.stats[n]))) for n in names})
+            step = {}
+            for n in names:
+                ls = _ds_leaf_state(jax.tree.map(lambda x: np.asarray(x)[0], state.stats[n]))
+                # every device must hold the same update and the same state as device 0
+                dd = 0.0
+                un = np.asarray(u[n])
+                for d_ in range(1, nd):
+                    dd = max(dd, _rel(un[d_], un[0]))
+                    if mode == "pmap":
+                        for x in jax.tree_util.tree_leaves(state.stats[n]):
+                            x = np.asarray(x)
+                            if x.dtype.kind == "f" and x.shape[0] == nd:
+                                dd = max(dd, _rel(x[d_], x[0]))
+                ls["devdiff"] = dd
+                if mode == "pmap" and len(shapes[n]) >= 1:
+                    ls["ownroot_bad"] = _own_root(ls, 2 * len(paxes(len(shapes[n]), c.get("ptype"))), c)
+                step[n] = (dev0(u[n]), ls)
+            out.append(step)
         return out
     if mode == "sharded":
         from jax.sharding import Mesh
@@ -441,6 +508,9 @@ def run_ds_blocks(c):
                  [{n: _sl(g, blk) for n, blk in zip(names, blocks)} for g in hist])
     graft = c.get("graft")
     grafted = ds_run(c, graft, {"w": shape}, [{"w": g} for g in hist], beta1=0.0) if graft else None
+    if c.get("mode") in ("pmap", "pmapq"):
+        _collect_runs(rec, whole, "blocked")
+        _collect_runs(rec, sep, "separate")
     nst = len(pax)
     dead = [False] * nb
     prev_tol = [0.0] * nb
@@ -581,6 +651,8 @@ def run_ds_companions(c):
     rec = {"task": c, "fails": [], "flips": {}, "bitwise": 0, "compared": 0, "nontrivial": [], "maxrel": 0.0,
            "reexam_suspect": 0, "layouts": []}
     base = ds_run(c, graft, leaves, [{n: hist[n][t] for n in leaves} for t in range(T)])
+    if c.get("mode") in ("pmap", "pmapq"):
+        _collect_runs(rec, base, "alone")
     for vi, comp in enumerate(c["companions"]):
         cshapes = {n: tuple(s) for n, s, _ in comp}
         ch = {}
@@ -590,6 +662,8 @@ def run_ds_companions(c):
         shapes = dict(leaves)
         shapes.update(cshapes)
         full = ds_run(c, graft, shapes, [{**{n: hist[n][t] for n in leaves}, **{n: ch[n][t] for n in cshapes}} for t in range(T)])
+        if c.get("mode") in ("pmap", "pmapq"):
+            _collect_runs(rec, full, "with companions %d" % vi)
         for n in sorted(leaves):
             dead = False
             prev_tol = 0.0
@@ -971,10 +1045,10 @@ def gen_tasks(tier, seed, thr, cut):
                       "diag": rng.choice([0.0, 1e-6, 1e-3]), "root": "eigh" if i % 2 else "newton", "x64": rng.random() < 0.4,
                       "meps": rng.choice([1e-6, 1e-6, 1e-3, 1e-2])})
     # ---- optimizer modes: PreconditionerType INPUT / OUTPUT, int16-quantized pmap, compression_rank, sharded
-    n_modes = 16 if quick else 64
+    n_modes = 20 if quick else 80
     for i in range(n_modes):
-        variant = ["ptype", "pmapq", "comp", "sharded"][i % 4]
-        kind = "ds_blocks" if (i // 4) % 2 == 0 else "ds_companions"
+        variant = ["ptype", "pmapq", "comp", "sharded", "pmap"][i % 5]
+        kind = "ds_blocks" if (i // 5) % 2 == 0 else "ds_companions"
         extra = {}
         if variant == "ptype":
             extra = {"ptype": rng.choice(["INPUT", "OUTPUT"])}
@@ -982,6 +1056,8 @@ def gen_tasks(tier, seed, thr, cut):
             extra = {"mode": "pmapq", "ndev": rng.choice([1, 2])}
         elif variant == "comp":
             extra = {"comp": rng.choice([1, 2, 2, -1])}
+        elif variant == "pmap":
+            extra = {"mode": "pmap", "ndev": rng.choice([2, 3, 4])}
         else:
             extra = {"mode": "sharded"}
             if rng.random() < 0.3:
@@ -991,14 +1067,25 @@ def gen_tasks(tier, seed, thr, cut):
         # moderate gradient scales for the packed / quantized / eigh-gated paths (the acceptance gate of the eigh-based routines
         # is absolute: known finding K8), wide ones elsewhere
         scales = "wide" if variant in ("ptype", "sharded") and root == "newton" else rng.choice(["one", [1.0, 0.03, 5.0, 0.2, 1.0, 0.5, 2.0, 0.1, 1.0]])
+        if variant == "pmap":
+            root, scales = "newton", "mid"       # Newton: the reported residual is relative (no K8 gate noise)
         base = {"seed": rng.randrange(1 << 30), "root": root, "T": rng.choice([2, 3]), "beta2": rng.choice([1.0, 0.9, 0.999]),
                 "x64": x64, "thr": thr, "meps": rng.choice([1e-6, 1e-3]), "modes": variant}
+        if variant == "pmap":
+            base["meps"] = 1e-3 if not x64 else rng.choice([1e-6, 1e-3])    # keeps the own-root oracle conclusive in float32
         if kind == "ds_blocks":
             if variant == "comp":
                 block = rng.choice([6, 7, 8])
                 shape = [rng.choice([block + rng.randint(1, 5), 2 * block]), rng.randint(5, block)]
                 if rng.random() < 0.5:
                     shape = shape[::-1]
+            elif variant == "pmap":
+                # more statistics than devices, not a multiple of the device count, a ragged last block
+                while True:
+                    shape, block = _shape_for_blocks(rng)
+                    nstat = len(ds_blocks_of(shape, block)) * len(shape)
+                    if nstat > extra["ndev"] and nstat % extra["ndev"] and any(d % block for d in shape if d > block):
+                        break
             else:
                 shape, block = _shape_for_blocks(rng)
                 while len(shape) < 2 and variant == "ptype":
@@ -1024,9 +1111,19 @@ def gen_tasks(tier, seed, thr, cut):
                 comps[1][0] = [comps[1][0][0], [min(block, own + rng.choice([1, 2, 5])), 3], comps[1][0][2]]
             if variant in ("comp", "pmapq") or root == "eigh":
                 comps = [[[n, sh, 10.0 ** rng.uniform(-1.5, 0.7)] for n, sh, _ in cp] for cp in comps]
+            if variant == "pmap":
+                # the companions change the number of statistics N, hence which device computes which slot: N > D, D does not divide N
+                def _nst(tree):
+                    return sum(len(ds_blocks_of(sh, block)) * len(sh) for sh in tree)
+                for ci in range(len(comps)):
+                    for _try in range(50):
+                        nfull = _nst(list(leaves.values()) + [sh for _n, sh, _s in comps[ci]])
+                        if nfull > extra["ndev"] and nfull % extra["ndev"] and nfull != _nst(leaves.values()):
+                            break
+                        comps[ci] = [[n, sh, 10.0 ** rng.uniform(-3, 3)] for n, sh, _ in _rand_companions(rng, rng.choice([1, 2, 3]))]
             tasks.append(dict(base, kind="ds_companions", leaves=leaves, block=block, beta1=(0.0 if variant == "pmapq" else rng.choice([0.0, 0.9])),
                               nesterov=rng.random() < 0.5, scales=("one" if scales != "wide" else "wide"), graft=rng.choice(GRAFTS + ["NONE"]),
-                              companions=comps, moderate=scales != "wide", **extra))
+                              companions=comps, moderate=scales not in ("wide", "mid"), **extra))
     # Tearfree companions must not contain unit dims / too many large dims: filter here (the package rejects them explicitly)
     for t in tasks:
         if t["kind"] == "tf_blocks" and t["companions"]:
@@ -1227,12 +1324,12 @@ def execute(ctx, tasks, rat_n=0):
     order = sorted(range(len(tasks)), key=lambda i: {"ds_blocks": 0, "ds_companions": 1, "tf_blocks": 2}.get(tasks[i]["kind"], 3))
     heavy = [tasks[i] for i in order if tasks[i]["kind"] in ("ds_blocks", "ds_companions", "tf_blocks")]
     light = [tasks[i] for i in order if tasks[i]["kind"] not in ("ds_blocks", "ds_companions", "tf_blocks")]
-    pm = [t for t in heavy if t.get("mode") == "pmapq"]
-    heavy = [t for t in heavy if t.get("mode") != "pmapq"]
+    pm = [t for t in heavy if t.get("mode") in ("pmapq", "pmap")]
+    heavy = [t for t in heavy if t.get("mode") not in ("pmapq", "pmap")]
     chunks = [[t] for t in heavy] + kit.chunked(light, 6)
     results = kit.parallel_map(worker, chunks, nproc=nproc)
     if pm:
-        results += kit.parallel_map(worker, [[t] for t in pm], nproc=min(nproc, len(pm)), ndev=2)
+        results += kit.parallel_map(worker, [[t] for t in pm], nproc=min(nproc, len(pm)), ndev=4)
     recs = [r for grp in results for r in grp]
     reqs, spans = [], []
     for r in recs:
@@ -1264,6 +1361,8 @@ def execute(ctx, tasks, rat_n=0):
             continue
         ctx.dist("tasks." + k + ("." + t["root"] if "root" in t else "") + (".x64" if t.get("x64") else ""))
         if t.get("modes"):
+            if r.get("ownroot_checked"):
+                ctx.dist("own_root_oracle.slots_checked", r["ownroot_checked"])
             ctx.dist("modes." + t["modes"] + "." + k + ((".ndev%d" % t["ndev"]) if t.get("ndev") else "") + (("." + t["ptype"]) if t.get("ptype") else "")
                      + ((".rank%+d" % t["comp"]) if t.get("comp") else ""))
         n = max(r["compared"], 1)
@@ -1351,6 +1450,9 @@ def run(ctx):
         "is absolute, so it straddles the threshold for statistics of magnitude ~1e5..1e6 in float32) whose pair really differs beyond "
         "tolerance is known finding K8 (KNOWN-FINDING line; a violation if K8 is no longer listed)",
         "Tearfree: a step where an eigenvalue lies within 1e-6 (relative) of eps*max(w) is cut-boundary (not compared)",
+        "pmap (non-quantized, 2-4 forced host devices, same gradients on every device, more statistics than devices and not a multiple): "
+        "all devices must hold the same update / state; every accepted stored root must satisfy max|X^p (S + ridge I) - I| <= max(20 err, "
+        "512 u kS, 1e-3) against ITS OWN statistic (slots where that bound exceeds 0.25 are inconclusive and skipped)",
         "modes: PreconditionerType INPUT/OUTPUT (p = 2 x #preconditioned axes); int16-quantized pmap on 1 or 2 forced host devices with "
         "beta1 = 0 (momentum buffers are int8 with per-PARAMETER column scales, a parameter-level coupling of blocks by design: not compared), "
         "tolerance widened by 4 n #axes kappa_root / 32767, payload differences classified (equal / one-unit-flip / more); compression_rank: "
